@@ -12,14 +12,7 @@ pub fn in_domain(a: f64) -> bool { a.is_finite() && a >= -DOMAIN_THOROUGH && a <
 pub fn in_quick(a: f64) -> bool { a >= -DOMAIN && a <= DOMAIN }
 
 // ---- postcondition predicates (documented closed ranges)
-/// (Kani only) log of the values angle_to_2pi's postcondition was evaluated on: under `stub_verified(angle_to_2pi)` these are
-/// the values the stubbed callee returned, which lets a modular harness state its claim in terms of them (angle_interval.rs)
-#[cfg(kani)] pub static mut TO_2PI_LOG: [f64; 4] = [0.0; 4];
-#[cfg(kani)] pub static mut TO_2PI_N: usize = 0;
-pub fn post_to_2pi(r: f64) -> bool {
-    #[cfg(kani)] unsafe { if TO_2PI_N < 4 { TO_2PI_LOG[TO_2PI_N] = r; } TO_2PI_N += 1; }
-    r >= 0.0 && r <= 2.0 * PI
-}
+pub fn post_to_2pi(r: f64) -> bool { r >= 0.0 && r <= 2.0 * PI }
 pub fn post_signed_pi(r: f64) -> bool { r >= -PI && r <= PI }
 pub fn post_in_direction(r: f64) -> bool { r >= 0.0 && r <= 2.0 * PI }
 pub fn post_compliment(a: f64, r: f64) -> bool {
